@@ -64,6 +64,12 @@ class Ctx:
             yield
         except AnchorMissing as e:
             self._add(rule, 'anchor-missing', where, '', False, 'anchor missing: %s' % e)
+        except Exception as e:  # the code no longer has the shape the rule can read: fail closed
+            import traceback
+            tb = traceback.extract_tb(e.__traceback__)[-1]
+            self._add(rule, 'anchor-missing', where, '', False,
+                      'anchor missing: the rule could not be evaluated on this tree (%s: %s at %s:%d)' %
+                      (type(e).__name__, e, os.path.basename(tb.filename), tb.lineno))
 
     def touched(self, body):
         self.functions.add(body.path)
